@@ -186,6 +186,20 @@ func (c *Compiler) applyAugment(
 
 	c.assertReferenceStatus(a, applyToNode, parentStatus)
 
+	// A uses written inside the augment names a grouping that is in scope
+	// where the augment is written: expand it there, before its nodes are
+	// moved to the node being augmented (which may be a copy of a grouping
+	// of another module, with that module's scope).
+	for _, kid := range a.Children() {
+		if kid.Type() == parse.NodeUses {
+			mod, _ := kid.GetModuleByPrefix("", c.modules, c.skipUnknown)
+			if err := c.applyUsesToNode(mod, a, kid, parentStatus); err != nil {
+				c.error(a, err)
+				return
+			}
+		}
+	}
+
 	for _, ch := range a.Children() {
 		if ch.Type().IsDataNode() || ch.Type().IsOpdDefNode() || ch.Type().IsExtensionNode() {
 			inheritCommonProperties(a, ch, true)
